@@ -207,6 +207,18 @@ pub fn configs(prop: &str, thorough: bool) -> Vec<SimConfig> {
             c.macro_finish = true;
             c.max_depth = Some(if thorough { 16 } else { 13 });
             v.push(c);
+            // the search starts with two idle connections of the same age (two concurrent requests have
+            // completed); two further requests, peer closes, cancellations and up to two ticks out of
+            // {T/2, 3T/4, 2T}, so that a check-out can happen strictly between T and 3T/2
+            let mut c = full("two-idle-then-n2-fine-ticks", 4, true);
+            c.prelude = ["Issue(o0,h1)", "Issue(o0,h1)", "Poll(r0)", "Poll(r1)", "DialOk(d0)", "DialOk(d1)", "Poll(r0)", "Poll(r1)", "Finish(r0)", "Finish(r1)"].iter().map(|s| s.to_string()).collect();
+            c.idle_timeout = Some(1);
+            c.max_ticks = 2;
+            c.fine_ticks = true;
+            c.allow_h2 = false;
+            c.ev_dial_fail = false;
+            c.max_depth = Some(if thorough { 13 } else { 9 });
+            v.push(c);
             let mut c = full("n3-macro-idle-ages", 3, true);
             c.idle_timeout = Some(1);
             c.max_ticks = 2;
@@ -248,6 +260,16 @@ pub fn configs(prop: &str, thorough: bool) -> Vec<SimConfig> {
                 v.push(c);
                 let mut c = full("n2-lax-is-open", 2, true);
                 c.strict_is_open = false;
+                v.push(c);
+                // an inner service that polls the connection for readiness before it sends (tower's contract),
+                // with both is_open flavours
+                let mut c = full("n2-lax-is-open-exec-polls-ready", 2, true);
+                c.strict_is_open = false;
+                c.exec_polls_ready = true;
+                c.allow_h2 = false;
+                v.push(c);
+                let mut c = full("n2-exec-polls-ready", 2, true);
+                c.exec_polls_ready = true;
                 v.push(c);
                 // nothing may be kept idle: a released connection either goes to a waiter (once ready) or is closed
                 let mut c = full("n2-lax-is-open-max0", 2, true);
@@ -363,7 +385,7 @@ pub(crate) fn replay_json(cfg: &SimConfig, hist: &[Ev]) -> serde_json::Value {
             "name": cfg.name, "origins": cfg.origins, "max_requests": cfg.max_requests, "allow_h1": cfg.allow_h1, "allow_h2": cfg.allow_h2,
             "continue_after_preemption": cfg.continue_after_preemption, "max_idle_per_host": cfg.max_idle_per_host, "idle_timeout": cfg.idle_timeout,
             "split_handshake": cfg.split_handshake, "strict_is_open": cfg.strict_is_open, "ev_cancel": cfg.ev_cancel, "ev_dial_fail": cfg.ev_dial_fail,
-            "ev_close": cfg.ev_close, "ev_upgrade": cfg.ev_upgrade, "max_ticks": cfg.max_ticks, "t_ms": cfg.t_ms, "burst": cfg.burst, "max_depth": cfg.max_depth, "macro_finish": cfg.macro_finish,
+            "exec_polls_ready": cfg.exec_polls_ready, "ev_close": cfg.ev_close, "ev_upgrade": cfg.ev_upgrade, "max_ticks": cfg.max_ticks, "t_ms": cfg.t_ms, "burst": cfg.burst, "max_depth": cfg.max_depth, "macro_finish": cfg.macro_finish, "fine_ticks": cfg.fine_ticks, "prelude": cfg.prelude,
         },
         "history": hist.iter().map(|e| e.text()).collect::<Vec<_>>(),
     })
@@ -383,6 +405,7 @@ fn cfg_from_json(v: &serde_json::Value) -> Option<SimConfig> {
         idle_timeout: c.get("idle_timeout").and_then(|x| x.as_u64()),
         split_handshake: b("split_handshake"),
         strict_is_open: b("strict_is_open"),
+        exec_polls_ready: b("exec_polls_ready"),
         ev_cancel: b("ev_cancel"),
         ev_dial_fail: b("ev_dial_fail"),
         ev_close: b("ev_close"),
@@ -392,6 +415,8 @@ fn cfg_from_json(v: &serde_json::Value) -> Option<SimConfig> {
         burst: b("burst"),
         max_depth: c.get("max_depth").and_then(|x| x.as_u64()).map(|x| x as usize),
         macro_finish: b("macro_finish"),
+        fine_ticks: b("fine_ticks"),
+        prelude: c.get("prelude").and_then(|x| x.as_array()).map(|a| a.iter().filter_map(|x| x.as_str().map(|s| s.to_string())).collect()).unwrap_or_default(),
     })
 }
 
@@ -519,9 +544,14 @@ pub fn run(args: &Args, prop: &'static str) -> i32 {
     }
     let _ = std::panic::take_hook();
     if let Some(m) = err {
-        println!("MACHINERY-ERROR {m}");
-        let _ = run.finish();
-        return 2;
+        if run.violations.is_empty() {
+            println!("MACHINERY-ERROR {m}");
+            let _ = run.finish();
+            return 2;
+        }
+        // an unsound merge can only hide states; a violation that was found has a concrete witness that
+        // replays on its own, so it stands
+        println!("NOTE machinery: {m} (the violations below have concrete witnesses and stand)");
     }
     run.finish()
 }
@@ -695,6 +725,14 @@ pub fn run_into(run: &mut Run, prop: &'static str, thorough: bool) -> Option<Str
 /// Development entry point: `hdmc CONC` with HDMC_CONC_PROP=<ID> (configs of that property, N=2 to fixpoint only).
 pub fn conc_cli() -> i32 {
     std::panic::set_hook(Box::new(|_| {}));
+    if let Ok(h) = std::env::var("HDMC_DEBUG_HIST") {
+        let mut c = SimConfig::base("dbg");
+        c.idle_timeout = Some(1);
+        let hist: Vec<Ev> = h.split(' ').filter_map(Ev::parse).collect();
+        let sim = Sim::replay(&c, &hist);
+        println!("{:?}", sim.svc);
+        return 0;
+    }
     let prop: &'static str = Box::leak(std::env::var("HDMC_CONC_PROP").unwrap_or_else(|_| "C03".into()).into_boxed_str());
     let filter = std::env::var("HDMC_CONC_CFG").ok();
     let mut rc = 0;
